@@ -150,6 +150,15 @@ type NullPtrs struct {
 	Z  int64               `json:"z"`
 }
 
+// MapPtrs: maps whose values are nullable (pointers): each non-null entry is
+// its own bank allocation and null entries must stay nil.
+type MapPtrs struct {
+	ID int64             `json:"id"`
+	M  map[string]*int64 `json:"m"`
+	MR map[string]*Inner `json:"mr"`
+	S  string            `json:"s"`
+}
+
 type Mixed struct {
 	ID int64             `json:"id"`
 	S  string            `json:"s"`
@@ -232,6 +241,7 @@ func init() {
 	addType(desc[PtrSlices]("PtrSlices", false, false))
 	addType(desc[Nulls]("Nulls", false, false))
 	addType(desc[NullPtrs]("NullPtrs", false, false))
+	addType(desc[MapPtrs]("MapPtrs", false, true))
 	addType(desc[Mixed]("Mixed", false, true))
 	addType(desc[Fixed]("Fixed", true, false))
 }
